@@ -2,7 +2,7 @@
 \* bookkeeping invariant Map0IsInputMap (map0 really is the map of the input chain)
 SPECIFICATION Spec
 CONSTANTS
-  MaxDim = 2
+  MaxDim = 1
   MaxLen = 2
   MaxRounds = 1
   WrongSwap = FALSE
